@@ -416,9 +416,34 @@ package keeper
 //@   ensures kvOnlyChanged(storeOf(k.storeKey), vpKey())
 //@   prop C13 C20
 
-//@ // store iteration is not modelled: these accessors are assumed total (no claim about what they return)
+//@ // store iteration is not modelled: the list of all vesting types is assumed to be the stored ones (each agrees with the ghost
+//@ // view); periods are only ever written from unit values, so they are whole seconds
 //@ func (k Keeper) GetAllVestingTypes(ctx) (vestingTypes)
 //@   trusted
+//@   ensures forall i: int :: {vestingTypes.VestingTypes[i]} 0 <= i && i < len(vestingTypes.VestingTypes) ==> vestingTypes.VestingTypes[i] != nil
+//@     && $vtFound[vestingTypes.VestingTypes[i].Name] && vestingTypes.VestingTypes[i].LockupPeriod == $vtLockup[vestingTypes.VestingTypes[i].Name]
+//@     && vestingTypes.VestingTypes[i].VestingPeriod == $vtVesting[vestingTypes.VestingTypes[i].Name] && vestingTypes.VestingTypes[i].Free == $vtFree[vestingTypes.VestingTypes[i].Name]
+//@     && vestingTypes.VestingTypes[i].LockupPeriod % 1000000000 == 0 && vestingTypes.VestingTypes[i].VestingPeriod % 1000000000 == 0
+//@ pred distinctTypeNames(vts) = forall i: int, j: int :: {vts[i], vts[j]} 0 <= i && i < j && j < len(vts) ==> vts[i].Name != vts[j].Name
+//@ func (k Keeper) SetVestingTypes(ctx, vestingTypes)
+//@   trusted
+//@   requires distinctTypeNames(vestingTypes.VestingTypes)
+//@   requires forall i: int :: {vestingTypes.VestingTypes[i]} 0 <= i && i < len(vestingTypes.VestingTypes) ==> vestingTypes.VestingTypes[i] != nil
+//@   modifies $vtFound, $vtFree, $vtLockup, $vtVesting
+//@   ensures forall i: int :: {vestingTypes.VestingTypes[i]} 0 <= i && i < len(vestingTypes.VestingTypes) ==>
+//@     $vtFound[vestingTypes.VestingTypes[i].Name] && $vtLockup[vestingTypes.VestingTypes[i].Name] == vestingTypes.VestingTypes[i].LockupPeriod
+//@     && $vtVesting[vestingTypes.VestingTypes[i].Name] == vestingTypes.VestingTypes[i].VestingPeriod && $vtFree[vestingTypes.VestingTypes[i].Name] == vestingTypes.VestingTypes[i].Free
+//@ func (k Keeper) SetVestingAccountTraceCount(ctx, count)
+//@   trusted
+//@ func (k Keeper) GetVestingAccountTraceCount(ctx) (count)
+//@   trusted
+//@ func (k Keeper) SetVestingAccountTrace(ctx, vestingAccountTrace)
+//@   trusted
+//@   modifies $trFound, $trGenesis, $trFromGenesisPool, $trFromGenesisAccount
+//@   ensures $trFound == store(old($trFound), vestingAccountTrace.Address, true)
+//@   ensures $trGenesis == store(old($trGenesis), vestingAccountTrace.Address, vestingAccountTrace.Genesis)
+//@   ensures $trFromGenesisPool == store(old($trFromGenesisPool), vestingAccountTrace.Address, vestingAccountTrace.FromGenesisPool)
+//@   ensures $trFromGenesisAccount == store(old($trFromGenesisAccount), vestingAccountTrace.Address, vestingAccountTrace.FromGenesisAccount)
 //@ // store iteration is not modelled: the list of all traces is assumed to be the recorded ones (each element agrees with the
 //@ // ghost view; that every recorded address occurs exactly once is part of the assumption)
 //@ ghost trListN int
